@@ -231,6 +231,59 @@ static void run_family(const char *vname) {
 	}
 }
 
+// ---- class-type keys, and arguments that refer to each other: `m.insert(rec.name, std::move(rec))` (the key is a member of the value
+// that is being moved; a moved-from std::string is empty), `m.insert(m.begin()->key, ...)`-style keys that live inside the map.
+struct Rec { std::string name; int payload = 0; };
+struct HStr { unsigned operator()(const std::string &s) const { unsigned h = 2166136261u; for(char ch : s) h = (h ^ (unsigned char)ch) * 16777619u; return h; } };
+static void string_key_case(Rng &r, long long idx) {
+	Ctx c; c.type = "hash_map<std::string,Rec>";
+	AllocState as; as.owner = "hash_map";
+	{
+		frg::hash_map<std::string, Rec, HStr, TrackedAlloc> m{HStr{}, TrackedAlloc{&as}};
+		std::map<std::string, int> ref;
+		unsigned nops = 40 + r.below(200), uni = 4 + r.below(60);
+		auto name_of = [&](unsigned k) { return k % 3 == 0 ? strf("k%u", k) : strf("a-key-that-is-longer-than-any-small-string-buffer-%u", k); };
+		for(unsigned i = 0; i < nops && !c.bad; i++) {
+			unsigned k = r.below(uni); std::string nm = name_of(k);
+			switch(r.below(6)) {
+			case 0: case 1: { // insert with the key taken from the value that is moved in
+				if(ref.count(nm)) break;
+				Rec rec{nm, (int)i}; c.op("ins(rec.name,move(rec)):" + std::to_string(k));
+				m.insert(rec.name, std::move(rec)); ref[nm] = (int)i; count("inserts_whose_key_is_a_member_of_the_moved_value");
+				break; }
+			case 2: { // same, copied
+				if(ref.count(nm)) break;
+				Rec rec{nm, (int)i}; c.op("ins(rec.name,rec):" + std::to_string(k));
+				m.insert(rec.name, rec); ref[nm] = (int)i;
+				if(rec.name != nm) c.fail("insert-copy-changed-source", "insert(const Key &, const Value &) changed its source");
+				break; }
+			case 3: { // remove with the key taken from inside the map (the stored entry's own key)
+				auto it = m.find(nm); c.op("rem(it->key):" + std::to_string(k));
+				if((it != m.end()) != (ref.count(nm) != 0)) { c.fail("find", "find() disagrees with the reference on " + nm); break; }
+				if(it == m.end()) break;
+				auto got = m.remove(it->template get<0>());
+				if(!got || got->payload != ref[nm] || got->name != nm) c.fail("remove-value", "remove(key stored in the map) returned a wrong value for " + nm);
+				ref.erase(nm);
+				break; }
+			default: {
+				Rec *g = m.get(nm); auto it = ref.find(nm); c.op("get:" + std::to_string(k));
+				if((g != nullptr) != (it != ref.end())) c.fail(g ? "get-absent" : "get-present", strf("get(%s) %s but the reference %s it", nm.c_str(), g ? "finds the key" : "misses", it != ref.end() ? "has" : "lacks"));
+				else if(g && (g->payload != it->second || g->name != nm)) c.fail("get-value", "get(" + nm + ") returned another record");
+				break; }
+			}
+			if(m.size() != ref.size()) c.fail("size", strf("size()=%zu expected %zu", (size_t)m.size(), ref.size()));
+			if(i % 16 == 0 || i + 1 == nops) {
+				std::map<std::string, int> seen;
+				for(auto it = m.begin(); it != m.end(); ++it) { auto &e = *it; if(e.template get<0>() != e.template get<1>().name) c.fail("iteration", "an entry's key differs from the name in its record"); seen[e.template get<0>()] = e.template get<1>().payload; }
+				if(seen != ref) c.fail("iteration", "iteration does not visit exactly the reference's entries");
+				for(unsigned q = 0; q < uni && !c.bad; q++) { std::string qn = name_of(q); Rec *g = m.get(qn); if((g != nullptr) != (ref.count(qn) != 0)) c.fail(g ? "get-absent" : "get-present", "probe of " + qn + " disagrees with the reference"); }
+			}
+		}
+	}
+	expect_no_blocks(as, "after destroying a string-keyed map");
+	note_distinct(mix(0x57, (uint64_t)idx));
+}
+
 int main(int argc, char **argv) {
 	parse_args(argc, argv, "c14_hashmap");
 	if(opt.replay_arg.find("prop=C16") != std::string::npos) g_prop = "C16";
@@ -247,6 +300,12 @@ int main(int argc, char **argv) {
 	run_family<HWide, int>("int");
 	run_family<HSigned, int>("int");
 	run_family<HSeeded, int>("int"); run_family<HSeeded, Elem>("Elem");
+	if(want_mode("string-keys")) {
+		Rng sr(derive_seed("string-keys"));
+		uint64_t n = scaled(300, 20000);
+		for(uint64_t i = 0; i < n; i++) { uint64_t cs = sr.next(); if(!want_case(i)) continue; begin_case("string-keys", i); Rng r(cs); guarded(g_prop.c_str(), [&] { string_key_case(r, (long long)i); }); count("string_key_histories"); if(!rec.violations.empty()) break; }
+		sample("string-keys: hash_map<std::string, Rec{name,payload}> vs std::map; inserts pass rec.name as the key and std::move(rec) (or rec) as the value; removes pass the key stored inside the map");
+	}
 	if(want_mode("init-list")) { init_list_case<HIdentity>(); init_list_case<HConst>(); }
 	return finish();
 }
